@@ -30,7 +30,7 @@ Inductive ftree :=
 | FEm (c0 : Z) (pre : str) (ch : Z) (double : bool) (w post : str)    (* a one-line paragraph: c0 :: pre, a run of ch, w, the run again, post *)
 | FLink (c0 : Z) (pre w dest post : str)                             (* a one-line paragraph: c0 :: pre, [w](dest), post *)
 | FSent (c0 : Z) (t0 : str) (gs : list mseg)                         (* a one-line paragraph: c0 :: t0, then emphasised phrases and links in any order, each with the text after it *)
-| FTick (c0 : Z) (pre code post : str)
+| FTick (c0 : Z) (pre : str) (n : nat) (code post : str)
 | FBrk (c : Z) (body : str) (k : nat) (more : list (str * nat))
 | FOne (c0 : Z) (pre : str) (x : inl) (post : str).                              (* a one-line paragraph: c0 :: pre, `code`, post - the code of any characters but backticks and regex triggers *)
 
@@ -42,7 +42,7 @@ Definition em_body (pre : str) (ch : Z) (double : bool) (w post : str) : str := 
 Definition link_body (pre w dest post : str) : str := pre ++ [91] ++ w ++ [93; 40] ++ dest ++ [41] ++ post.
 
 (* the text of an FTick line after its first character *)
-Definition tick_body (pre code post : str) : str := pre ++ [96] ++ code ++ [96] ++ post.
+Definition tick_body (pre : str) (n : nat) (code post : str) : str := pre ++ repeat 96 (S n) ++ code ++ repeat 96 (S n) ++ post.
 
 Definition quote_s (l : sline) : sline :=
   match l with
@@ -77,7 +77,7 @@ Fixpoint spell (t : ftree) : list sline :=
   | FEm c0 pre ch double w post => [SLine 0 c0 (em_body pre ch double w post)]
   | FLink c0 pre w dest post => [SLine 0 c0 (link_body pre w dest post)]
   | FSent c0 t0 gs => [SLine 0 c0 (t0 ++ mbody gs)]
-  | FTick c0 pre code post => [SLine 0 c0 (tick_body pre code post)]
+  | FTick c0 pre n code post => [SLine 0 c0 (tick_body pre n code post)]
   | FBrk c body k more => map (fun l => SLine 0 (hd 0 l) (tl l)) (brk_lines ((c :: body, k) :: more))
   | FOne c0 pre x post => [SLine 0 c0 (one_body pre x post)]
   end.
@@ -119,7 +119,7 @@ Section Mode.
     | FEm c0 pre ch double w post => PParagraph ln [c0 :: em_body pre ch double w post ++ [10]]
     | FLink c0 pre w dest post => PParagraph ln [c0 :: link_body pre w dest post ++ [10]]
     | FSent c0 t0 gs => PParagraph ln [c0 :: (t0 ++ mbody gs) ++ [10]]
-    | FTick c0 pre code post => PParagraph ln [c0 :: tick_body pre code post ++ [10]]
+    | FTick c0 pre n code post => PParagraph ln [c0 :: tick_body pre n code post ++ [10]]
     | FBrk c body k more => PParagraph ln (nl_lines (brk_lines ((c :: body, k) :: more)))
     | FOne c0 pre x post => PParagraph ln [c0 :: one_body pre x post ++ [10]]
     end.
@@ -133,7 +133,7 @@ End Mode.
 (* Paragraph.parse_setext after the block *)
 Fixpoint st_after (st : pstate) (t : ftree) : pstate :=
   match t with
-  | FPara _ _ _ | FFence _ _ _ | FHead _ _ _ | FRule _ _ | FEm _ _ _ _ _ _ | FLink _ _ _ _ _ | FSent _ _ _ | FTick _ _ _ _ | FBrk _ _ _ _ | FOne _ _ _ _ => st
+  | FPara _ _ _ | FFence _ _ _ | FHead _ _ _ | FRule _ _ | FEm _ _ _ _ _ _ | FLink _ _ _ _ _ | FSent _ _ _ | FTick _ _ _ _ _ | FBrk _ _ _ _ | FOne _ _ _ _ => st
   | FQuote _ => mkPs true
   | FItem _ _ ts => fold_left st_after ts st
   | FMore _ _ ts _ next => st_after (fold_left st_after ts st) next
@@ -142,7 +142,7 @@ Definition st_seq (st : pstate) (ts : list ftree) : pstate := fold_left st_after
 
 Fixpoint depth (t : ftree) : nat :=
   match t with
-  | FPara _ _ _ | FFence _ _ _ | FHead _ _ _ | FRule _ _ | FEm _ _ _ _ _ _ | FLink _ _ _ _ _ | FSent _ _ _ | FTick _ _ _ _ | FBrk _ _ _ _ | FOne _ _ _ _ => 0%nat
+  | FPara _ _ _ | FFence _ _ _ | FHead _ _ _ | FRule _ _ | FEm _ _ _ _ _ _ | FLink _ _ _ _ _ | FSent _ _ _ | FTick _ _ _ _ _ | FBrk _ _ _ _ | FOne _ _ _ _ => 0%nat
   | FQuote ts | FItem _ _ ts => S (fold_right (fun t m => Nat.max (depth t) m) 0%nat ts)
   | FMore _ _ ts _ next => Nat.max (S (fold_right (fun t m => Nat.max (depth t) m) 0%nat ts)) (depth next)
   end.
